@@ -25,7 +25,6 @@ from __future__ import annotations
 
 import ast
 import json
-import itertools
 import os
 import time
 import typing
@@ -34,7 +33,7 @@ from concurrent.futures import ProcessPoolExecutor
 from .. import e2e
 from ..common import hx, unhx
 from ..runner import Check
-from . import c05, c05_groups
+from . import c05
 
 FORMS = ["owner", "sibling", "item"]
 LETTER = "abcdef"
@@ -245,12 +244,10 @@ def run_group(g: dict) -> dict:
     if "mod" in shared:
         e2e.unload(shared["mod"])
     if kind == "typing.TypedDict":
-        with_err = None
         try:
             res["td"] = td_snapshot(classes)
-        except Exception as e:  # noqa: BLE001
-            with_err = f"{type(e).__name__}: {e}"
-            res["td"] = {"error": with_err}
+        except Exception as e:  # noqa: BLE001 - the internals read by the snapshot changed shape: reported as a broken correspondence
+            res["td"] = {"error": f"{type(e).__name__}: {e}"}
         res["td_hints"] = td_hints(r.code, classes)
     return res
 
